@@ -1,7 +1,7 @@
 """C06 - malformed mappings are rejected, never silently mis-decoded."""
 import q
 from rules import decoderrules, vlqrules
-from rules.common import error_construct_blocks, guarded
+from rules.common import error_construct_blocks, run_rules
 
 EXPLANATION = ("C06: every rejection the property names is shown to be a guard that dominates the use it protects: "
                "(R1) value-partition reachability over the segment length proves that 2-, 3- and >5-field segments reach "
@@ -26,9 +26,14 @@ def r4(ctx):
     ctx.floor("C06.R4", "errors", "error constructions", n, 8)
 
 
+RULES = {
+    "C06.R1": lambda ctx: decoderrules.arity(ctx, "C06.R1"),
+    "C06.R2": lambda ctx: decoderrules.sanitised_indices(ctx, "C06.R2"),
+    "C06.R3": lambda ctx: vlqrules.reader_shape(ctx, "C06.R3"),
+    "C06.R4": r4,
+    "C06.R5": lambda ctx: decoderrules.rmi_reader(ctx, "C06.R5"),
+}
+
+
 def check(ctx):
-    guarded(ctx, "C06.R1", decoderrules.DEC, lambda: decoderrules.arity(ctx, "C06.R1"))
-    guarded(ctx, "C06.R2", decoderrules.DEC, lambda: decoderrules.sanitised_indices(ctx, "C06.R2"))
-    guarded(ctx, "C06.R3", vlqrules.READER, lambda: vlqrules.reader_shape(ctx, "C06.R3"))
-    guarded(ctx, "C06.R4", "errors", lambda: r4(ctx))
-    guarded(ctx, "C06.R5", "decoder::decode_rmi", lambda: decoderrules.rmi_reader(ctx, "C06.R5"))
+    run_rules(ctx, RULES)
